@@ -97,6 +97,38 @@ func main() {
 	stgutg.ManageError("Error in connection to AMF", err)
 	stgutg.ManageNGSetup(conn, string(gnb), c.IMSI, c.MNC, uint64(c.GnbBitLength), c.GnbName)
 
+	if mode == "rereg" {
+		// one UE context registers, deregisters and registers again over the same association (with
+		// other algorithms the second time when the scenario says so): what the context carries from
+		// its first life must not leak into the second
+		var u *tglib.RanUeContext
+		if via, _ := s.Rig["via_create_ue"].(bool); via {
+			u = stgutg.CreateUE(c.IMSI, 0, c.K, c.OPC, c.OP)
+		} else {
+			u = tglib.NewRanUeContext(supi, int64(num(s.Rig, "ran_id", 1)), nea, nia)
+			u.AuthenticationSubs = tglib.GetAuthSubscription(c.K, c.OPC, c.OP)
+		}
+		logCtx := func(i int) {
+			w.Log(world.Event{Ev: "ctx", I: i, UE: i, Info: map[string]interface{}{"supi": u.Supi, "ran_ue_ngap_id": u.RanUeNgapId, "amf_ue_ngap_id": u.AmfUeNgapId,
+				"kamf": hex.EncodeToString(u.Kamf), "knasint": hex.EncodeToString(u.KnasInt[:]), "knasenc": hex.EncodeToString(u.KnasEnc[:]), "ul_count": u.ULCount.Get(), "dl_count": u.DLCount.Get()}})
+		}
+		u, _, _ = stgutg.RegisterUE(u, c.MNC, c.MCC, conn)
+		logCtx(0)
+		stgutg.DeregisterUE(u, c.MNC, conn)
+		if n2, ok := s.Rig["nea2"].(float64); ok {
+			u.CipheringAlg = uint8(n2)
+		}
+		if n2, ok := s.Rig["nia2"].(float64); ok {
+			u.IntegrityAlg = uint8(n2)
+		}
+		u, _, _ = stgutg.RegisterUE(u, c.MNC, c.MCC, conn)
+		logCtx(1)
+		w.Summary(true)
+		fmt.Println(">> rig finished")
+		conn.Close()
+		os.Exit(0)
+	}
+
 	if mode == "multi" {
 		// Several subscribers - explicit SUPIs, possibly roamers from another PLMN, possibly with
 		// their own credentials - share one process and one association: all UE contexts are created
